@@ -70,6 +70,11 @@ def bad_trees():
     trees["13 enum ordinal is not an integer"] = t(lambda f, nm: f["map"].children.append(enum("Bad", values=(("A", "x"),))))
     trees["13 enum ordinal defined twice"] = t(lambda f, nm: f["map"].children.append(enum("Bad", values=(("A", "1"), ("B", "1")))))
     trees["13 enum value name defined twice"] = t(lambda f, nm: f["map"].children.append(enum("Bad", values=(("A", "1"), ("A", "2")))))
+    # a value called None is emitted under another name (None is a keyword): the redefinition rule speaks about the
+    # specification's names and about the emitted ones alike
+    trees["13 enum value name None defined twice"] = t(lambda f, nm: f["map"].children.append(enum("Bad", values=(("None", "1"), ("None", "2")))))
+    trees["13 enum value names None and None_ collide in the emitted class"] = t(lambda f, nm: f["map"].children.append(enum("Bad", values=(("None", "1"), ("None_", "2")))))
+    trees["13 enum value name defined twice, other values in between"] = t(lambda f, nm: f["map"].children.append(enum("Bad", values=(("A", "1"), ("B", "2"), ("A", "3")))))
     trees["13 enum underlying type is not numeric"] = t(lambda f, nm: f["map"].children.append(enum("Bad", type_="string")))
     trees["13 enum underlying type is itself"] = t(lambda f, nm: f["map"].children.append(enum("Bad", type_="Bad")))
     trees["13 enum without underlying type"] = t(lambda f, nm: f["map"].children.append(Elem("enum", {"name": "Bad"}, [Elem("value", {"name": "A"}, text="0")])))
